@@ -141,6 +141,21 @@ CLAIMS = {
         note="trusts clang AST/CFG; TypedArgBase property getters report the configured properties",
         also=("engine A (cfg.py)",),
         technique="static analysis: exhaustive truth table of the predicate + CFG path counting"),
+    "C19": dict(
+        level="proof", engine="engine C (lin.py, bounds.py)",
+        text="Linear-inequality abstract interpretation (own exact Fourier-Motzkin entailment, no solver) of every "
+             "public member of every ReadBuffer<N,P>/WriteBuffer<N,P> instantiation, private helpers inlined: the "
+             "invariants mDataStart <= mDataEnd <= N and mWritePos <= N are assumed at entry and proved at every exit "
+             "and inductively around the refill loop; every memcpy/memmove, buffer subscript and hand-off to the "
+             "virtual source/sink carries bounds obligations against the N-byte buffer and the caller's len bytes; a "
+             "progress obligation shows every refill can receive at least one byte (requests > N are refused first). "
+             "All obligations are discharged for all request sizes and all source chunkings. Structural rules add "
+             "flush-before-overwrite, complete pass-through and the read-window discipline. The byte-stream equality "
+             "itself is not decided.",
+        note="trusted base: clang front end, extractor, cv/lin.py + cv/bounds.py; contract assumed for the virtual "
+             "source (writes/returns at most the requested length) and sink; caller supplies len bytes",
+        also=("engine A (cfg.py)",),
+        technique="static analysis: relational (linear inequality) abstract interpretation with inductive class invariants"),
     "C20": dict(
         level="other", engine="engine E (effects.py)",
         text="Static lockset/dominance and initialisation-order analysis of every Singleton<T>::instance/reset and "
